@@ -23,9 +23,25 @@ PROP = {'module': 'GolibsVerif.Theorems.C06',
              'encoding/binary.BigEndian/LittleEndian.Uint16/32/64 = the first 2/4/8 bytes in that order; slices.ContainsFunc = "at least '
              'one element e of s satisfies f(e)"; bytes.Equal/HasPrefix; Go integer semantics (wrap-around, shifts >= width give 0, uint '
              'taken as 64 bits)',
+             'second round: branches on the parameter whose sides cannot be merged stay forked (at most 4096 per function), so searches '
+             'over sorted tables run with concrete bounds on every path; a value that differs between paths only through a condition '
+             '(the -1/0/+1 of a three-way comparison, a found index) is a case split and every operator is applied arm by arm; conditions '
+             'are simplified under the path (texts of earlier conditions, their and/or/not parts, unit propagation, per-byte interval and '
+             'known bits), unreachable branches are dropped, nested if-then-else conditions are Shannon-split when that is shorter. '
+             'slices, sort and cmp are not modelled but EXECUTED FROM THE SOURCE in $GOROOT/src of the toolchain that builds /repo '
+             '(go env GOROOT run in the repository; gen/stdsrc.go): slices.BinarySearchFunc is literally the go1.24.2 loop `for i < j { '
+             'h := int(uint(i+j) >> 1); if cmp(x[h], target) < 0 { i = h + 1 } else { j = h } }; return i, i < n && cmp(x[i], target) == '
+             "0`; hand models remain for bytes.Compare (lexicographic three-way), slices.Sort/SortFunc/SortStableFunc and "
+             'sort.Slice/SliceStable (stable insertion sort through the given less/cmp; the unstable variants are rejected when two '
+             'different elements compare equal), make/copy/min/max/append. While a package-level initialiser is evaluated nothing is '
+             'symbolic and slices are references with Go\'s aliasing (element writes, append within capacity, re-slicing to capacity, copy, '
+             'in-place sort/merge); a growing append gets exactly the needed capacity, Go rounds up by an unspecified amount, therefore a '
+             'slice whose capacity the executor does not know is an error to re-slice beyond its length or to use again after it grew',
              'package-level tables are read from their initialisers: the translator rejects tables that are exported, assigned, '
-             'element-assigned, address-taken or passed to a pointer-receiver method anywhere in the package; mutation through an alias '
-             '(s := table; s[0] = …) is not tracked (it would be seen by the differential run)',
+             'element-assigned, address-taken or passed to a pointer-receiver method anywhere in the package; a finished initialiser\'s '
+             'tables are frozen (another initialiser writing to them is an error); a slice-typed table may be mentioned only in code the '
+             'executor itself runs (where an in-place write is an error) or under len/cap/range/index — passing it to other code, '
+             'returning or storing it is rejected (checkAliases), which closes the alias hole of the first round',
              'that the documented lists equal RFC 6303 / the IANA registries is NOT claimed: the property is stated against the '
              'documentation'],
  'level_text': 'Lean theorems for ALL 2^32 IPv4 and 2^128 IPv6 addresses (any zone, 4in6, zero Addr): the bodies (byte switches, integer mask tables, netip.Prefix tables, …) of '
@@ -37,7 +53,7 @@ PROP = {'module': 'GolibsVerif.Theorems.C06',
                'check_sound, prefixF_spec, cex_sound; nothing partial. Tie: regenerated model (T-gen) + differential run of the '
                'regenerated terms against the real functions (guards the translator) + exhaustive IPv4 sweep of the real code against the '
                'documentation oracle (first octets carrying listed networks in the quick tier, all 2^32 in the thorough tier). trusted: '
-               'Lean kernel, the ~3400-line translator (symbolic executor), the netip model',
+               'Lean kernel, the ~5000-line translator (symbolic executor), the netip model',
  'assumptions': ['netip.Addr is modelled as zero value | 32-bit IPv4 | 128-bit IPv6 + zone string; Is4 is false for 4in6 (as in net/netip)',
                  'membership is netip.Prefix.Contains on the address without its zone (Contains itself is false for zoned addresses; the '
                  "property text says 'with or without zone')"],
